@@ -33,13 +33,14 @@ EVENT_PROP = {
 }
 
 
-def mc_cfg(mode, conns, reqs, fair, kinds=("full", "head", "body")):
+def mc_cfg(mode, conns, reqs, fair, kinds=("full", "head", "body"), resets=True):
     ids = ", ".join("i%d" % i for i in range(1, reqs + 1))
     lines = ["SPECIFICATION %s" % ("FairSpec" if fair else "Spec"), "CONSTANTS",
              "  Conn = {%s}" % ", ".join("c%d" % i for i in range(1, conns + 1)),
              "  Req = {%s}" % ", ".join("r%d" % i for i in range(1, reqs + 1)),
              "  Ids = {%s}" % ids, "  MaxSteps = 1", '  Mode = "%s"' % mode,
-             "  SendKinds = {%s}" % ", ".join('"%s"' % k for k in kinds)]
+             "  SendKinds = {%s}" % ", ".join('"%s"' % k for k in kinds),
+             "  Resets = %s" % ("TRUE" if resets else "FALSE")]
     for inv in ("DetachedNeverCancelled", "CancelOnlyWhenGone", "NoHandlerBeforeReject", "ShutdownWaits",
                 "CloseAfterDone", "StayedGetsResponse", "IdsUnique", "WgCounts"):
         lines.append("INVARIANT " + inv)
@@ -57,18 +58,18 @@ def model_check(prop, tier, findings, cov):
         full = ("full",)
         allk = ("full", "head", "body")
         if tier == "quick":
-            runs.append((mode, 2, 2, False, full))   # safety: 2 connections, 2 requests, whole sends
-            runs.append((mode, 1, 2, True, allk))    # safety + liveness: 1 connection, partial sends
+            runs.append((mode, 2, 2, False, full, False))  # safety: 2 connections, 2 requests, whole sends
+            runs.append((mode, 1, 2, True, full, False))  # safety + liveness: 1 connection
         else:
-            runs.append((mode, 2, 2, False, allk))
-            runs.append((mode, 1, 2, True, allk))
-            runs.append((mode, 2, 2, True, full))
-    for mode, conns, reqs, fair, kinds in runs:
-        name = "MC_Lifecycle_%s_%dc%dr%s%s.cfg" % (mode, conns, reqs, "_fair" if fair else "",
-                                                   "" if len(kinds) == 3 else "_full")
+            runs.append((mode, 2, 2, False, allk, True))
+            runs.append((mode, 1, 2, True, allk, True))
+            runs.append((mode, 2, 2, True, full, False))
+    for mode, conns, reqs, fair, kinds, resets in runs:
+        name = "MC_Lifecycle_%s_%dc%dr%s%s%s.cfg" % (mode, conns, reqs, "_fair" if fair else "",
+                                                     "" if len(kinds) == 3 else "_" + "_".join(kinds), "" if resets else "_noreset")
         res = vlib.run_tlc("%s-%s" % (prop, name[:-4]), "MC_Lifecycle.tla", name, workers=12,
                            timeout=3400 if tier == "thorough" else 1200,
-                           extra_files={name: mc_cfg(mode, conns, reqs, fair, kinds)}, heap="16g", tags=())
+                           extra_files={name: mc_cfg(mode, conns, reqs, fair, kinds, resets)}, heap="16g", tags=())
         vlib.tlc_ok(res, name)
         cov["states"] += res.distinct
         cov["transitions"] += res.generated
@@ -156,14 +157,10 @@ def binding_demo(prop, path):
             muts["drop_req_start_hook"] = lines[:i] + lines[i + 1:]
         if '"ev":"resp_ready"' in ln and '"status":200' in ln and "corrupt_status" not in muts:
             muts["corrupt_status"] = lines[:i] + [ln.replace('"status":200', '"status":201')] + lines[i + 1:]
-        if '"ev":"graceful_done"' in ln and "graceful_done_early" not in muts:
-            # move graceful_done before an in-flight request's handler_complete if there is one
-            for j in range(i - 1, max(0, i - 40), -1):
-                if '"ev":"handler_complete"' in lines[j] or '"ev":"handler_dropped"' in lines[j]:
-                    muts["graceful_done_early"] = lines[:j] + [ln] + lines[j:i] + lines[i + 1:]
-                    break
-                if '"ev":"reset"' in lines[j]:
-                    break
+        if '"ev":"graceful_done"' in ln and "waitgroup_done_before_graceful_done" not in muts:
+            # the shutdown steps out of order: waitgroup_done is only enabled after graceful_done
+            if i + 1 < len(lines) and '"ev":"waitgroup_done"' in lines[i + 1]:
+                muts["waitgroup_done_before_graceful_done"] = lines[:i] + [lines[i + 1], ln] + lines[i + 2:]
     for name, ml in muts.items():
         mp = path + "." + name
         with open(mp, "w") as f:
